@@ -51,6 +51,8 @@ type knownFinding struct {
 
 // Ctx is the state of one property check.
 type Ctx struct {
+	only func(key string) bool // when set, Check records only the obligations it accepts
+
 	Prop     string
 	Tier     string
 	Repo     string
@@ -254,6 +256,10 @@ func (c *Ctx) pos(p token.Pos) string {
 func (c *Ctx) Check(rule, key string, ok bool, p token.Pos, detail string, args ...interface{}) bool {
 	if len(args) > 0 {
 		detail = fmt.Sprintf(detail, args...)
+	}
+	if c.only != nil && !c.only(key) {
+		// the rule is run for a subset of its obligations (those that bear on the current property)
+		return ok
 	}
 	o := Obligation{Rule: rule, Key: key, OK: ok, Pos: c.pos(p), Detail: detail}
 	if !ok {
